@@ -20,6 +20,15 @@ using namespace sqf::types;
 
 namespace
 {
+    // Keys are captured by value: a later change of an array used as key must not change the stored key.
+    value capture_key(value::cref key)
+    {
+        if (key.is<t_array>())
+        {
+            return value(key.data<d_array>()->copy_deep());
+        }
+        return key;
+    }
     value createhashmap_(runtime& runtime)
     {
         return std::make_shared<d_hashmap>();
@@ -39,7 +48,7 @@ namespace
                     auto& key = subArr->at(0);
                     auto& value = subArr->at(1);
                     // ToDo: Check key-type matches
-                    hashmap[key] = value;
+                    hashmap[capture_key(key)] = value;
                 }
                 else
                 {
@@ -70,7 +79,7 @@ namespace
             auto& key = arr->at(0);
             auto& value = arr->at(1);
             // ToDo: Check key-type matches
-            data->map()[key] = value;
+            data->map()[capture_key(key)] = value;
         }
         else
         {
